@@ -3,7 +3,7 @@
 From Coq Require Import NArith ZArith List Bool Lia String.
 Import ListNotations.
 From PM Require Import Model.Varint Model.Directory Model.Header Model.TileId Model.FindTile Model.Resolver Model.Archive Model.Verify
-  Model.Cluster Model.Convert Proofs.Resolver Proofs.Cluster Proofs.ClusterThm Proofs.ConvertThm Proofs.HilTop.
+  Model.Cluster Model.Convert Proofs.Resolver Proofs.Cluster Proofs.ClusterThm Proofs.ConvertThm Proofs.HilTop Proofs.E7Glue.
 Open Scope N_scope.
 
 Section C06.
@@ -122,6 +122,12 @@ Theorem C06_flip : forall r, m_z r <= 31 -> m_x r < 2^m_z r -> m_y r < 2^m_z r -
   id_to_zxy (row_id r) = (m_z r, m_x r, 2^m_z r - 1 - m_y r).
 Proof. intros r Hz Hx Hy. unfold row_id. apply C01_zxy_id_roundtrip; [exact Hz|exact Hx|lia]. Qed.
 
+(* bounds and centre: Convert truncates where Edit rounds; a coordinate written with up to seven decimals is stored within one E7 unit
+   of its exact value (the tolerance is part of the statement, as the property says "agree", not "exactly") *)
+Theorem C06_bounds_within_one : forall m k, (k <= 7)%nat -> (- 2^31 + 1 < m * 10 ^ (7 - Z.of_nat k) < 2^31 - 1)%Z ->
+  (Z.abs (e7_trunc (m, k) - m * 10 ^ (7 - Z.of_nat k)) <= 1)%Z.
+Proof. intros m k Hk H. unfold e7_trunc. cbn [fst snd]. apply e7_trunc_decimal; assumption. Qed.
+
 (* metadata rows: an example with every kind of row, evaluated in the kernel *)
 Open Scope string_scope.
 Example C06_metadata_example :
@@ -140,3 +146,4 @@ Print Assumptions C06_dedup_irrelevant.
 Print Assumptions C06_verifies.
 Print Assumptions C06_header.
 Print Assumptions C06_flip.
+Print Assumptions C06_bounds_within_one.
